@@ -58,6 +58,7 @@ func (f *Frame) builtin(b *ssa.Builtin, c *ssa.CallCommon, pos token.Pos) []Val 
 		vc.set(f.cur, has, ite(eq(h.T, "0"), hs, store(hs, h.T, store(sel(hs, h.T), k.T, "false"))))
 		return nil
 	case "close":
+		f.siteCall(c, pos)
 		ch := f.val(c.Args[0])
 		vc.regComp("ChanClosed", "(Array Int Bool)")
 		cl := vc.get(f.cur, "ChanClosed")
@@ -191,9 +192,11 @@ func (f *Frame) execSend(ch, x ssa.Value, pos token.Pos, cond string) {
 	cnt, val := vc.regChan(ch.Type())
 	vc.regComp("ChanClosed", "(Array Int Bool)")
 	if cond == "true" {
+		f.siteBlock([]string{c.T}, pos, "send")
 		f.safe("send", pos, "send on "+ch.Name(), not(sel(vc.get(f.cur, "ChanClosed"), c.T)))
 	}
 	_, _ = cnt, val
+	f.chanElemSend(ch, v, pos, cond)
 	// per-activation ghost: the sends performed by this function's own instructions, in order
 	vc.regComp("Own_SendCnt", "Int")
 	vc.regComp("Own_SendChan", "(Array Int Int)")
@@ -214,6 +217,10 @@ func ownSendValComp(chanT types.Type) string {
 func (f *Frame) execRecv(x *ssa.UnOp) {
 	ct := x.X.Type().Underlying().(*types.Chan)
 	v := f.freshVal("recv_"+x.Name(), ct.Elem())
+	f.siteBlock([]string{f.val(x.X).T}, x.Pos(), "recv")
+	if !x.CommaOk {
+		f.chanElemRecv(x.X, v, "true")
+	}
 	if x.CommaOk {
 		ok := Val{f.vc.fresh("recvok_"+x.Name(), "Bool"), "Bool"}
 		f.tuples[x] = []Val{v, ok}
@@ -230,13 +237,24 @@ func (f *Frame) execSelect(x *ssa.Select) {
 		lo = "(- 1)"
 	}
 	vc.assume(fmt.Sprintf("(and (<= %s %s) (< %s %d))", lo, idx, idx, len(x.States)))
+	vc.regComp("Own_LastSelect", "Int")
+	vc.set(f.cur, "Own_LastSelect", idx)
+	if x.Blocking {
+		var chans []string
+		for _, st := range x.States {
+			chans = append(chans, f.val(st.Chan).T)
+		}
+		f.siteBlock(chans, x.Pos(), "select")
+	}
 	tup := []Val{{idx, "Int"}, {vc.fresh("selok_"+x.Name(), "Bool"), "Bool"}}
 	for i, st := range x.States {
 		if st.Dir == types.SendOnly {
 			f.execSend(st.Chan, st.Send, st.Pos, fmt.Sprintf("(= %s %d)", idx, i))
 		} else {
 			ct := st.Chan.Type().Underlying().(*types.Chan)
-			tup = append(tup, f.freshVal(fmt.Sprintf("selrecv_%s_%d", x.Name(), i), ct.Elem()))
+			rv := f.freshVal(fmt.Sprintf("selrecv_%s_%d", x.Name(), i), ct.Elem())
+			f.chanElemRecv(st.Chan, rv, fmt.Sprintf("(= %s %d)", idx, i))
+			tup = append(tup, rv)
 		}
 	}
 	f.tuples[x] = tup
